@@ -1,7 +1,6 @@
 package texttable
 
 import (
-	"go.pennock.tech/tabular"
 	"go.pennock.tech/tabular/texttable/decoration"
 )
 
@@ -195,37 +194,8 @@ func VerifC03_widelines() {
 	verifC03(3, 1, 1, L, -1)
 }
 
-type vfMutableText struct{ s string }
-
-func (m *vfMutableText) String() string { return m.s }
-
-// VerifC03_updated: a cell whose item changed text (also to the empty string, also to fewer or more
-// lines) and was updated is laid out by its new text.
 func VerifC03_updated() {
-	texts := []string{"", "ab", "abc\nd", "x\ny\nz", "wide-text"}
-	t := New()
-	m := &vfMutableText{texts[1+vfChoice("before", 4)]}
-	t.AddHeaders("h1", "h2")
-	t.AddRowItems(m, "q")
-	t.AddRowItems("r")
-	if vfChoice("render-first", 2) == 1 {
-		t.Render()
-	}
-	after := texts[vfChoice("after", 5)]
-	m.s = after
-	c, _ := t.CellAt(tabular.CellLocation{Row: 1, Column: 1})
-	c.Update()
-	name := vfDecoNames[vfChoice("deco", 3)]
-	t.SetDecorationNamed(name)
-	d := decoration.Named(name)
-	out, err := t.Render()
-	vfAssert(err == nil, "render-ok")
-	one := func(s string) vfCellSpec { return vfCellSpec{lines: vfLinesOf(s), declW: -1, declH: -1} }
-	hdr := []vfCellSpec{one("h1"), one("h2")}
-	rows := []vfRowSpec{{cells: []vfCellSpec{one(after), one("q")}}, {cells: []vfCellSpec{one("r")}}}
-	want := vfRefRender(d, d == decoration.NoBox(), true, hdr, rows, 2, make([]int, 2))
-	vfAssert(out == want, "layout-as-documented")
-	vfRectangle(out, 2, vfColWidths(hdr, rows, 2), d == decoration.NoBox())
+	verifUpdated()
 }
 
 func VerifC03_custom() {
